@@ -6,8 +6,8 @@ use vstd::prelude::*;
 verus! {
 
 /// stand-ins: glob::Pattern, the repository handle, and Config (only the exclusion list is read)
-pub struct Pattern { pub _opaque: () }
-pub struct Repository { pub _opaque: () }
+#[verifier::external_body] pub struct Pattern { _o: () }
+#[verifier::external_body] pub struct Repository { _o: () }
 pub struct Config { pub exclude_prompts_in_repositories: Vec<Pattern> }
 pub uninterp spec fn is_star(p: Pattern) -> bool;                              // pattern.as_str() == "*"
 pub uninterp spec fn pat_matches(p: Pattern, url: Seq<char>) -> bool;          // pattern.matches(url)
